@@ -1432,6 +1432,7 @@ func runC14(r *Rng, tier string, n int) {
 	runServe(r, tier)
 	runStreams(r, tier)
 	runMuxDirected()
+	runMuxCaseSweep()
 	runMux(r, tier)
 	runSkel(r, tier)
 	runConcurrent(r, tier)
